@@ -14,6 +14,7 @@ import (
 	"fmt"
 	"math"
 	"math/rand"
+	"os"
 
 	"verif/harness/internal/core"
 	"verif/harness/internal/gen"
@@ -338,4 +339,27 @@ var Spec = &gen.Spec{
 	},
 }
 
-func Check(c *core.Ctx) (map[string]any, []string, error) { return gen.Check(c, Spec) }
+// mutants demonstrate the binding (BUILDING.md, definition of done 3): with
+// C06_MUTATE set the JavaScript side of the adapter is perturbed and the check
+// must report violations.
+var mutants = map[string]string{
+	// radix 16 is silently treated as radix 10
+	"parseint-radix": "var __pi = parseInt; parseInt = function(s, r){ return __pi(s, r === 16 ? 10 : r); };",
+	// one digit position of toFixed output is off by one for one argument
+	"tofixed-digit": "var __tf = Number.prototype.toFixed; Number.prototype.toFixed = function(f){ var s = __tf.call(this, f); return f === 7 ? s.replace(/3$/, '4') : s; };",
+	// String(x) of doubles with 17 significant digits loses the last digit
+	"tostring-17": "var __S = String; String = function(x){ var s = __S(x); return (typeof x === 'number' && /^[0-9]\\.[0-9]{16}e/.test(s)) ? s.replace(/[0-9]e/, 'e') : s; };",
+}
+
+func Check(c *core.Ctx) (map[string]any, []string, error) {
+	sp := *Spec
+	if m := os.Getenv("C06_MUTATE"); m != "" {
+		js, ok := mutants[m]
+		if !ok {
+			return nil, nil, fmt.Errorf("unknown C06_MUTATE %q", m)
+		}
+		sp.Prelude += js
+		c.Note("MUTANT %s active: this run is a self-test of the binding and is expected to fail", m)
+	}
+	return gen.Check(c, &sp)
+}
